@@ -17,7 +17,7 @@ namespace VolumeControl
 
 /-- mirrors: VolumeControlBuilder::build / VolumeControl::new (default `Decibels::IDENTITY`) -/
 def new (volume : Value α α) : VolumeControl α :=
-  { volume := Parameter.new volume (0.0 : α), cmdVolume := none }
+  gen_body% { volume := Parameter.new volume Gen.volumeControlDefault, cmdVolume := none }
 
 /-- mirrors: Effect::init (trait default: nothing) -/
 def init (s : VolumeControl α) (_sampleRate _internalBufferSize : Nat) : VolumeControl α := s
